@@ -3,10 +3,12 @@
   (`./check C19` lists them and runs `#print axioms` on each).  Helper lemmas: IcingaProofs/C19/Lemmas.lean;
   the generated tables: IcingaProofs/Gen/SandboxGuards.lean via IcingaProofs/C19/Tables.lean.
 
-  KNOWN FINDING F-C19 (pinned tree): `SetConstExpression::DoEvaluate` has no sandbox guard.  The block
-  between `-- BEGIN F-C19 known` and `-- END F-C19 known` carries the partial result and the
-  counterexample; the block `BEGIN F-C19 fixed … END F-C19 fixed` (commented out) holds the full-strength
-  theorems that must replace it once the guard is added.  `gen/c19_switch.py fixed|known` performs the swap.
+  F-C19a (`SetConstExpression::DoEvaluate` had no sandbox guard) was repaired in /repo by 03364e3; the
+  full-strength theorems over the generated table (`all_mutating_nodes_guarded`,
+  `sandbox_noninterference_pinned`) are in force.  The block `BEGIN F-C19 known (disabled)` keeps the
+  partial result and the counterexample that held on the unrepaired tree for the record
+  (`gen/c19_switch.py known|fixed` swaps the two blocks); `setconst_guard_is_necessary` restates the
+  counterexample about the generated table with that one guard taken out again.
 -/
 import IcingaProofs.C19.Lemmas
 import IcingaProofs.C19.Tables
@@ -119,7 +121,7 @@ theorem reference_paths_cannot_write :
     mutating ones: While, For, Import, ImportDefaultTemplates, Library). -/
 theorem documented_guards_present : ∀ k ∈ documentedGuards, genGuard k = true := by decide
 
--- BEGIN F-C19 known
+/- BEGIN F-C19 known (disabled)
 /- Full statement (false on the pinned tree, see `setconst_counterexample`):
 
      theorem all_mutating_nodes_guarded : ∀ k, mutating k = true → genGuard k = true
@@ -157,9 +159,9 @@ theorem sandbox_noninterference_repaired (native : String → Option Native) (hi
     · simp [repairedGuard, hks]
     · simp [repairedGuard, all_mutating_nodes_guarded_partial k hk hks]
   · exact call_and_field_checks_present.1
--- END F-C19 known
+END F-C19 known (disabled) -/
 
-/- BEGIN F-C19 fixed
+-- BEGIN F-C19 fixed
 /-- **all_mutating_nodes_guarded.**  Every node kind whose clause writes protected state is guarded in
     the table generated from the source on this run. -/
 theorem all_mutating_nodes_guarded : ∀ k, mutating k = true → genGuard k = true := by
@@ -174,7 +176,20 @@ theorem sandbox_noninterference_pinned (native : String → Option Native) (hidd
     (hp : SafeNativesPure (genCfg native hidden)) (fuel : Nat) (e : Expr) (env : Env) :
     (eval (genCfg native hidden) true fuel e env).2.prot = env.prot :=
   sandbox_noninterference _ all_mutating_nodes_guarded call_and_field_checks_present.1 hp fuel e env
-END F-C19 fixed -/
+
+/-- **setconst_guard_is_necessary** (what F-C19a was, kept as a statement about the UNREPAIRED table).
+    Take the one guard of `SetConstExpression` out of the generated table again and noninterference is
+    false: `const X = 42` evaluated sandboxed from the empty environment defines the constant `X`.  So the
+    model is sensitive to exactly the guard that commit 03364e3 added. -/
+theorem setconst_guard_is_necessary :
+    ¬ (∀ (fuel : Nat) (e : Expr) (env : Env),
+        (eval { genCfg (fun _ => none) (fun _ _ => false) with
+                  guard := fun k => genGuard k && k != "SetConstExpression" } true fuel e env).2.prot = env.prot) := by
+  intro h
+  have := h 2 (.setConst "X" (.lit (.num 42))) {}
+  revert this
+  decide
+-- END F-C19 fixed
 
 
 /-! ## Non-vacuity -/
